@@ -96,7 +96,7 @@ def r_cannot_compile(ctx):
 def check(ctx):
     r_binders(ctx, 'R03.1')
     from . import c04
-    n, f = c04.table_rule(ctx, 'R03.2', lambda p: bool(TYPING.match(p)), 'the typing functions code generation relies on')
+    n, f = c04.table_rule(ctx, 'R03.2', lambda p: bool(TYPING.match(p)), 'the typing functions code generation relies on', guards.GUARD_FIELDS)
     ctx.floor('R03.2', 'typing functions', f, 20)
     r_cannot_compile(ctx)
     c04.r_zip(ctx, 'R03.6')
